@@ -16,15 +16,16 @@ CONC_TRUST = ["translator harness/cmd/lockx (go/ast; intra-procedural must-held 
               "Go memory model DRF-SC (reasoning at lock granularity)", "the race detector and free-running schedules are a search engine only"]
 FACTX = [dict(exe="factx", args=["/repo", "/verif/lean/Avfs/Generated/Wrap.lean"])]
 MODEL_TRUST = ["modelled, not verified: Go maps and slices as association lists / lists, time.Now (modification times are compared only where Chtimes set them), math/rand temp names (taken from the implementation's answer)",
-               "the MemFS model is hand-written from vfs/memfs/*.go and vfs.go; tied by corr memfs* (call results + internal node graph through the verif hook after every call)"]
+               "the MemFS model is hand-written from vfs/memfs/*.go and vfs.go; tied by corr memfs* (call results + internal node graph through the verif hook after every call)",
+               "the OrefaFS model (Avfs/FS/Orefa.lean) is hand-written from vfs/orefafs/*.go; tied by corr orefa (call results + node tree + path index through the verif hook after every call)"]
 
 PROPS = {
     "C01": dict(
         props_files=["Avfs/Props/C01.lean"],
-        parts=[dict(name="memfs"), dict(name="kernel")],
+        parts=[dict(name="memfs"), dict(name="kernel"), dict(name="orefa"), dict(name="kernel-orefa")],
         trusted=MODEL_TRUST + ["oracle: the Linux kernel through OsFS / package os in a chroot-ed child process on a fresh tmpfs directory (corr kernel): MemFS itself, not the model, is compared call by call and tree by tree"],
         assumptions=["administrator; Linux emulation; the root directory is not an operand of remove/rename in the kernel comparison (the oracle's scratch root is not a file-system root)", "set-id bits are not generated in the kernel comparison (kernel-specific inheritance / clearing rules)"],
-        not_yet_proved=["MemFS.step = Posix.step (the Lean reference semantics of Linux is not written yet: equality with Linux is carried by the direct impl≟kernel oracle run and its ledger of divergence classes)", "OrefaFS (model not built yet)"],
+        not_yet_proved=["MemFS.step = Posix.step (the Lean reference semantics of Linux is not written yet: equality with Linux is carried by the direct impl≟kernel oracle run and its ledger of divergence classes)", "OrefaFS: executable model (Avfs/FS/Orefa.lean) tied by corr orefa (tree + path index after every call) and compared with the kernel by corr kernel-orefa; no theorems about it yet"],
     ),
     "C04": dict(
         props_files=["Avfs/Props/C04.lean"],
@@ -35,10 +36,10 @@ PROPS = {
     ),
     "C05": dict(
         props_files=["Avfs/Props/C05.lean"],
-        parts=[dict(name="memfs"), dict(name="memfs-perm"), dict(name="memfs-views")],
+        parts=[dict(name="memfs"), dict(name="memfs-perm"), dict(name="memfs-views"), dict(name="orefa")],
         trusted=MODEL_TRUST + ["wfCheck (the executable invariant) is evaluated by the Lean driver on the node graph dumped from the implementation after every call"],
         assumptions=["sequential histories (concurrent executions: C06)", "views whose root directory has been removed through another view are outside the theorem (kernel-checked witness C05_detached_view_witness)"],
-        not_yet_proved=["RenameSafe (the path-prefix test of Rename implies the graph condition)", "wfCheck ↔ WF", "frame property (a successful call changes only the entries it names)", "OrefaFS"],
+        not_yet_proved=["RenameSafe (the path-prefix test of Rename implies the graph condition)", "wfCheck complete for WF (soundness is C05_wfCheck_sound)", "frame property (a successful call changes only the entries it names)", "OrefaFS: the consistency of its tree and of its path index is an oracle evaluated after every call (corr orefa), not a theorem"],
     ),
     "C06": dict(
         props_files=["Avfs/Props/C06.lean"],
@@ -64,10 +65,10 @@ PROPS = {
         race=[("memidm", "", 2), ("memfs", CLEAN, 2), ("memfs", "mkdir,remove", 2), ("orefafs", "mkdir,remove", 2)],
         lin=[("memfs", "deadlock", 25000)],
         props_files=["Avfs/Props/C07.lean"],
-        parts=[dict(name="memfs"), dict(name="memfs-files"), dict(name="path", tags="verif,avfs_setostype")],
+        parts=[dict(name="memfs"), dict(name="memfs-files"), dict(name="orefa"), dict(name="path", tags="verif,avfs_setostype")],
         trusted=MODEL_TRUST,
         assumptions=["part (a) only: sequential no-panic / no-hang; interleavings (b)(c) are C06/C08 work in progress"],
-        not_yet_proved=["ranked lock acquisition of the real functions (generic theorem ranked_deadlock_free is proved in Avfs/Conc; the per-function rank obligations need the lock-skeleton translator)", "no-panic for OrefaFS, RoFS, BasePathFS, FailFS models"],
+        not_yet_proved=["ranked lock acquisition of the real functions (generic theorem ranked_deadlock_free is proved in Avfs/Conc; the per-function rank obligations need the lock-skeleton translator)", "no-panic as a theorem for the OrefaFS model (the model has panic / hang outcomes exactly where the Go code would; the correspondence reports any it meets), RoFS, BasePathFS, FailFS"],
     ),
     "C10": dict(
         props_files=["Avfs/Props/C10.lean"],
@@ -100,10 +101,10 @@ PROPS = {
     ),
     "C02": dict(
         props_files=["Avfs/Props/C02.lean"],
-        parts=[dict(name="memfs-files"), dict(name="kernel-files")],
+        parts=[dict(name="memfs-files"), dict(name="kernel-files"), dict(name="orefa"), dict(name="kernel-orefa")],
         trusted=MODEL_TRUST + ["oracle: *os.File through OsFS in a chroot-ed child process on a fresh tmpfs directory"],
         assumptions=["file sizes far below 2^31", "one process; handles interleaved sequentially"],
-        not_yet_proved=["refinement of whole handle histories to a pread/pwrite reference (per-operation theorems only)", "OrefaFS handles (model not built yet)"],
+        not_yet_proved=["OrefaFS handles: executable model tied by corr orefa and compared with os.File by corr kernel-orefa; theorems are stated for the MemFS handle model", "directory handles: one pass is proved (C02_readdir_batches); rewinding differs from os.File (recorded finding dir-handle-rewinds)"],
     ),
     "C03": dict(
         props_files=["Avfs/Props/C03.lean"],
